@@ -779,10 +779,13 @@ def find(mod: ast.Module, qual: str):
                 return (inner[0], None) if len(inner) == 1 else (None, None)
         return None, None
     if len(parts) == 1:
+        # (C15b) the *last* module-level `def` of that name: a later `def` rebinds the name (`@overload` stubs followed
+        # by the implementation)
+        hit = None
         for n in mod.body:
             if isinstance(n, ast.FunctionDef) and n.name == parts[0]:
-                return n, None
-        return None, None
+                hit = n
+        return hit, None
     for n in mod.body:
         if isinstance(n, ast.ClassDef) and n.name == parts[0]:
             for m in n.body:
